@@ -33,7 +33,7 @@ def signature(draw, scope, free_p=0.12, max_params=4, posonly=True, default_p=0.
 
 @st.composite
 def config(draw, max_levels=1, max_mws=4, posonly=True, nonunique=True, nonreorderable=False, free_p=0.12,
-           all_kinds=True):
+           all_kinds=True, perturb=True):
     nlevels = draw(st.integers(1, max_levels))
     pool = list(NAMES)
     roles = {}
@@ -136,7 +136,7 @@ def config(draw, max_levels=1, max_mws=4, posonly=True, nonunique=True, nonreord
             mw[ph] = draw(signature(scope, free_p=free_p, posonly=posonly, exclude=('next',)))
     route['ep'] = draw(signature(av['ep'], free_p=free_p, posonly=posonly, exclude=('next', 'context')))
     pert = None
-    if free_p > 0 and draw(st.floats(0, 1)) < 0.15:
+    if perturb and free_p > 0 and draw(st.floats(0, 1)) < 0.15:
         # perturbation: one name declared with a default by one function and required by another function of the same phase
         # (either order); when nothing offers the name the configuration is unsatisfiable although "someone has a default"
         offered = set(url) | all_res
